@@ -8,6 +8,7 @@ import (
 	"math/rand"
 	"sort"
 	"strings"
+	"sync/atomic"
 	"time"
 
 	"verif/harness/shape"
@@ -48,6 +49,7 @@ func profile(name string) Profile {
 		w["search"], w["collect"], w["del"], w["upd"] = 20, 25, 12, 20
 		w["chain"] = 4
 		w["stalerefine"] = 5
+		w["kept"] = 8
 	case "golden":
 		// what the PINNED release can run without meeting its known defects: plain writes
 		for k := range w {
@@ -113,17 +115,24 @@ var uDom = []uint64{0, 1, 2, 3, 1<<53 + 1, 1 << 63, math.MaxUint64, math.MaxUint
 var vDom = []uint64{0, 1, 2, math.MaxUint32}
 var fDom = []float64{-1.5, math.Copysign(0, -1), 0, 0.5, 1.5, 1e300, -1e300, 5e-324, math.MaxFloat64, 0.1}
 var gDom = []float64{0, float64(float32(0.1)), 1.5, -2.5, math.MaxFloat32}
-var tDom = []int64{0, 1, 1700000000123456789, 1700000000123456790, 1700000000123456788, 1<<53 + 1, -1}
+var tDom = []int64{0, 1, 1700000000123456789, 1700000000123456790, 1700000000123456788, 1<<53 + 1, -1, zeroTimeKey, zeroTimeKey, -6000000000000000000}
+
+// zeroTimeKey: what sod's index key of the ZERO time.Time is (UTC().UnixNano() wraps around for year 1: the
+// field of every object whose time was never set). The token i<zeroTimeKey> stands for time.Time{} itself
+const zeroTimeKey = -6795364578871345152
+
+var timeLocs = []*time.Location{time.UTC, time.FixedZone("E", 3600), time.UTC, time.FixedZone("W", -5*3600)}
+var timeLocN int64
 var xDom = []int64{-1, 0, 1, 2}
 var zDom = []float64{0, 0.5, -0.5, 2}
 var pDom = []int64{0, 1, 2}
 var eDom = []uint64{0, 1, 65535}
 
-func pick64(r *rand.Rand, d []int64) int64     { return d[r.Intn(len(d))] }
-func pickU(r *rand.Rand, d []uint64) uint64    { return d[r.Intn(len(d))] }
-func pickF(r *rand.Rand, d []float64) float64  { return d[r.Intn(len(d))] }
-func pickS(r *rand.Rand) string                { return strDom[r.Intn(len(strDom))] }
-func pct(r *rand.Rand, p int) bool             { return r.Intn(100) < p }
+func pick64(r *rand.Rand, d []int64) int64    { return d[r.Intn(len(d))] }
+func pickU(r *rand.Rand, d []uint64) uint64   { return d[r.Intn(len(d))] }
+func pickF(r *rand.Rand, d []float64) float64 { return d[r.Intn(len(d))] }
+func pickS(r *rand.Rand) string               { return strDom[r.Intn(len(strDom))] }
+func pct(r *rand.Rand, p int) bool            { return r.Intn(100) < p }
 
 func genCfg(r *rand.Rand, p Profile) Cfg {
 	var c Cfg
@@ -158,6 +167,7 @@ func genCfg(r *rand.Rand, p Profile) Cfg {
 		c.To = 1 + r.Intn(4)
 		c.Cache = pct(r, 30)
 		c.Compress = pct(r, 25)
+		c.Lower = pct(r, 15)
 	default:
 		c.Cache = pct(r, 40)
 		c.Compress = pct(r, 25)
@@ -256,7 +266,30 @@ func genRec(r *rand.Rand, c Cfg) Flat {
 	return f
 }
 
-func timeOf(n int64) time.Time { return time.Unix(0, n).UTC() }
+// timeOf: the instant a token stands for, in one of several REPRESENTATIONS (location) in turn: an index key,
+// a uniqueness check or a comparison depends on the instant only
+// withKey: the flat value with one scalar key replaced; a key below a nil pointer makes the pointer non-nil
+func withKey(f Flat, fld int, tok string) Flat {
+	nb := f.R % 4
+	switch fld {
+	case shape.FNX, shape.FNY:
+		if nb&1 != 0 {
+			f.R = f.R - nb + 2
+		}
+	case shape.FNDZ, shape.FNDW:
+		f.R -= nb
+	}
+	f.K[fld] = tok
+	return f
+}
+
+func timeOf(n int64) time.Time {
+	loc := timeLocs[int(atomic.AddInt64(&timeLocN, 1))%len(timeLocs)]
+	if n == zeroTimeKey {
+		return time.Time{}.In(loc)
+	}
+	return time.Unix(0, n).In(loc)
+}
 
 func genBad(r *rand.Rand, f Flat) Flat {
 	// an unserialisable float payload
@@ -662,6 +695,76 @@ func (e *Exec) GenOp(r *rand.Rand, p Profile) []string {
 			ls = append(ls, fmt.Sprintf("one %d @mode", nextSid))
 		}
 		return ls
+	case "kept":
+		// a search value is KEPT while the collection changes under it, then used (and refined, and used
+		// again): it denotes what matched when it was evaluated. Directed at every operator of an indexed
+		// field with duplicates of the probed key, a write that moves index entries (insertion before or
+		// inside the matched range, deletion, update that moves an entry), then Collect of the kept value
+		// itself after it has served as the base of a refinement
+		fld := e.genField(r) % NF
+		var ix []int
+		for i := 0; i < NF; i++ {
+			if e.cfg.indexed(i) {
+				ix = append(ix, i)
+			}
+		}
+		if len(ix) > 0 && pct(r, 75) {
+			fld = ix[r.Intn(len(ix))]
+		}
+		det := e.cfg.indexed(fld)
+		u := e.pickLive(r)
+		if u == 0 || e.spec.off {
+			return e.GenOp(r, p)
+		}
+		base, ok := e.spec.live[u]
+		if !ok {
+			return e.GenOp(r, p)
+		}
+		probe := base.K[fld]
+		var out []string
+		for i := r.Intn(3); i > 0; i-- {
+			out = append(out, "ins "+withKey(genRec(r, e.cfg), fld, probe).String())
+		}
+		nextSid++
+		s1 := nextSid
+		out = append(out, fmt.Sprintf("search %d %d %s %s", s1, fld, cmpOps[r.Intn(len(cmpOps))], probe))
+		deleted := false
+		for i := 1 + r.Intn(2); i > 0; i-- {
+			switch x := r.Intn(4); {
+			case x == 0:
+				out = append(out, "ins "+genRec(r, e.cfg).String())
+			case x == 1:
+				out = append(out, "ins "+withKey(genRec(r, e.cfg), fld, probe).String())
+			case x == 2 && det:
+				out = append(out, fmt.Sprintf("del %d", e.pickLive(r)))
+				deleted = true
+			default:
+				v := e.pickLive(r)
+				if g, ok := e.spec.live[v]; ok {
+					g.U = v
+					out = append(out, "ins "+withKey(g, fld, genRec(r, e.cfg).K[fld]).String())
+				}
+			}
+		}
+		mode := 1
+		if det {
+			mode = 0
+		}
+		if pct(r, 60) {
+			f2 := fld
+			if len(ix) > 0 && pct(r, 60) {
+				f2 = ix[r.Intn(len(ix))]
+			}
+			nextSid++
+			out = append(out, fmt.Sprintf("and %d %d %d %s %s", nextSid, s1, f2, cmpOps[r.Intn(len(cmpOps))], probeFor(r, e, f2)))
+			out = append(out, fmt.Sprintf("len %d", nextSid))
+			if e.cfg.indexed(f2) && det {
+				out = append(out, fmt.Sprintf("collect %d -1 0 0", nextSid))
+			} else if !deleted {
+				out = append(out, fmt.Sprintf("collect %d -1 0 1", nextSid))
+			}
+		}
+		return append(out, fmt.Sprintf("len %d", s1), fmt.Sprintf("collect %d -1 %d %d", s1, r.Intn(2), mode))
 	case "stalerefine":
 		// a kept search on an integer field, then one of its objects is updated on THAT field, then the
 		// kept value is refined on the same field (the range idiom, later), then collected: the refinement
@@ -758,6 +861,9 @@ func (e *Exec) GenOp(r *rand.Rand, p Profile) []string {
 			switch {
 			case pct(r, 4):
 				ms = append(ms, "OTHER")
+			case pct(r, 4) && p.Name != "golden":
+				// a member json refuses (NaN / Inf), at any position of the batch
+				ms = append(ms, genBad(r, genRec(r, e.cfg)).String())
 			case pct(r, 30) && len(e.spec.live) > 0:
 				f := genRec(r, e.cfg)
 				f.U = e.pickLive(r)
@@ -968,6 +1074,14 @@ func (e *Exec) GenOp(r *rand.Rand, p Profile) []string {
 			u := e.pickLive(r)
 			if u == 0 {
 				return e.GenOp(r, p)
+			}
+			if pct(r, 50) {
+				// one entry of one field index only
+				for _, i := range r.Perm(NF) {
+					if e.cfg.indexed(i) {
+						return []string{"close", "reopen", fmt.Sprintf("rmfentry %d %d", u, i)}
+					}
+				}
 			}
 			return []string{"close", "reopen", fmt.Sprintf("rmentry %d", u)}
 		case 5:
